@@ -16,13 +16,13 @@ RULE = ("Hypothesis RuleBasedStateMachine around ICG_Gym: n=3..5; a cyclic list 
         "computer matching the family (both SA computers; sam_apx_1/10 for SAM families), one of the four gap functions, a step "
         "budget None/k, optionally extra initially-known coalitions; rules step(valid a), unstep(revealed a), reset(). For n=3 all "
         "action sequences without repetition are enumerated. Oracle = model (hidden game, revealed set, step counter): known "
-        "set/values, action mask, observation, reward == -(independent gap of a FRESH object with the same knowledge), "
+        "set/values, action mask, observation (bit-exact against the library's normalize_game on a copy AND, within a stated tolerance, against an exact rational normalisation of the hidden table - additive-up-to-rounding games must show zeros), reward == -(independent gap of a FRESH object with the same knowledge), "
         "info id, done predicate, reset behaviour; fresh SA bounds cross-checked with the reference closed form. Non-trivial: "
         ">= 2 steps and an unstep or reset, on a hidden game whose explorable values are not all equal.")
 LEVEL_TEXT = ("Model-based stateful search over reset/step/unstep histories with an independent model of everything the environment "
               "returns; exhaustive over action orders for n=3 per drawn configuration. Explores configurations; no proof.")
-LEVEL_NOTE = ("Trusted: vp/oracles.py gap and bound references; the library's normalize_game is used to predict observations (its own "
-              "correctness is C15). Reward compared within oracles.gap_tol. n<=5.")
+LEVEL_NOTE = ("Trusted: vp/oracles.py gap and bound references; the library's normalize_game predicts observations bit for bit and C15's exact rational oracle "
+              "(vp/props/c15.py norm_oracle) predicts them within its tolerance, grey zone skipped. Reward compared within oracles.gap_tol. n<=5.")
 TECHNIQUE = "property-based testing: Hypothesis rule-based state machine vs explicit environment model (+ exhaustive n=3 action orders)"
 ASSUMPTIONS = ["actions are valid (mask true) for step and previously revealed for unstep", "hidden games are of the class the computer assumes"]
 
@@ -44,6 +44,7 @@ class Sim:
         self.specs = cfg["games"]
         self.values = [libgames.spec_values(s) for s in self.specs]
         self.calls = 0
+        self.norm_cache = {}
         self.comp = cfg["computer"]
         self.gap = cfg["gap"]
         self.budget = cfg["budget"]
@@ -143,6 +144,21 @@ class Sim:
         state = [float(x) for x in env.state]
         if state != want_state:
             res.fail(f"observation :: {where}: env.state {state} expected {want_state}")
+        # ... and against an oracle that shares nothing with the library (exact rational normalisation of the hidden table; games
+        # that are additive up to rounding normalise to zero; the grey zone in between is not judged - see C15)
+        if self.norm_cache.get(self.cur) is None:
+            from ..oracles import is_sa
+            from .c15 import norm_oracle
+            scale_ = max([abs(x) for x in v] + [1e-300])
+            self.norm_cache[self.cur] = norm_oracle(v, n) if is_sa(v, n, 1e-9 * scale_) else ("not-superadditive", None, None)
+        mode_, w_, tol_ = self.norm_cache[self.cur]
+        if w_ is not None:
+            for pos, s in enumerate(self.explorable):
+                want = w_[s] if s in K else 0.0
+                if abs(state[pos] - want) > tol_ * max(1.0, abs(want)):
+                    res.fail(f"observation-vs-exact-normalisation :: {where}: position {pos} (coalition {s}) shows {state[pos]!r}, "
+                             f"exact normalised hidden value {want!r} ({mode_})")
+                    break
         # reward vs fresh object + independent gap
         fresh = repo.new_game(n, self.comp)
         repo.set_knowledge(fresh, v, K)
